@@ -18,6 +18,7 @@ import (
 	"strconv"
 	"strings"
 	"sync"
+	"syscall"
 	"testing"
 
 	"pgregory.net/rapid"
@@ -260,6 +261,13 @@ func Flush() {
 // Main is used as TestMain body: runs the tests, flushes the statistics.
 func Main(m *testing.M, meta Meta) {
 	SetMeta(meta)
+	// Safety net: a generated program (or the harness itself) that grows without bound must kill this one
+	// process, not the machine. Only the soft limit is set, child processes choose their own.
+	var rl syscall.Rlimit
+	if syscall.Getrlimit(syscall.RLIMIT_AS, &rl) == nil && (rl.Cur == ^uint64(0) || rl.Cur > 10<<30) {
+		rl.Cur = 10 << 30
+		_ = syscall.Setrlimit(syscall.RLIMIT_AS, &rl)
+	}
 	code := m.Run()
 	Flush()
 	os.Exit(code)
